@@ -411,3 +411,13 @@ Example ex_cert : path_cert ex_graph 0 (Some ([0; 1; 2; 3]%nat, [0; 0; 0]%nat, 3
                /\ bfs_cert ex_graph 0 (Some ([0; 1; 2; 3]%nat, [0; 0; 0]%nat)) = false
                /\ path_cert ex_graph 3 None = false.
 Proof. repeat split; reflexivity. Qed.
+
+(* ---- from_mdp: "accepts a deterministic MDP however its single-outcome distributions are
+   represented".  Full statement: forall d, from_mdp_read d = Some (dist_outcome d).
+   The model of today's code refutes it for the single-entry DictDistribution. ---- *)
+Theorem from_mdp_repr_partial d :
+  (forall x, d <> DDict x) -> from_mdp_read d = Some (dist_outcome d).
+Proof. destruct d; intros H; try reflexivity. exfalso. eapply H; eauto. Qed.
+
+Theorem from_mdp_repr_refuted : exists d, from_mdp_read d <> Some (dist_outcome d).
+Proof. exists (DDict 0). discriminate. Qed.
